@@ -11,6 +11,7 @@ package verifsync
 
 import (
 	"sync"
+	"sync/atomic"
 	"time"
 )
 
@@ -31,24 +32,53 @@ func OnceValue[T any](f func() T) func() T { return sync.OnceValue(f) }
 
 func OnceValues[T1, T2 any](f func() (T1, T2)) func() (T1, T2) { return sync.OnceValues(f) }
 
-var sink func(op string)
+// waiting counts the goroutines that are currently polling for a lock. The simulator reads
+// it at quiescent points: a goroutine that is still waiting when every other goroutine is
+// parked or blocked waits for a lock whose holder is parked inside I/O, i.e. one call is
+// blocked on another call's progress. A short wait for a lock that guards a few
+// instructions resolves before the next quiescent point and is not reported.
+// (The counter is atomic: it orders only goroutines that contend for locks, which the lock
+// orders anyway.)
+var waiting int64
 
-// SetSink installs the simulator's observer of would-block events (nil to remove).
-//
-//go:norace
-func SetSink(f func(op string)) { sink = f }
+// Waiting returns the number of goroutines polling for a lock right now.
+func Waiting() int64 { return atomic.LoadInt64(&waiting) }
 
-//go:norace
-func report(op string) {
-	if f := sink; f != nil {
-		f(op)
+func report(op string) {}
+
+// aborted is set by the simulator when a run has been ended (violation found): a goroutine
+// that is still polling for a lock then parks for good instead of spinning on the fake
+// clock, so that the bubble can end.
+var aborted int32
+
+// SetAborted is called by the simulator at the start (false) and end (true) of a run.
+func SetAborted(b bool) {
+	if b {
+		atomic.StoreInt32(&aborted, 1)
+	} else {
+		atomic.StoreInt32(&aborted, 0)
+		atomic.StoreInt64(&waiting, 0)
 	}
 }
 
 func wait(try func() bool) {
+	atomic.AddInt64(&waiting, 1)
+	start := time.Now()
 	for !try() {
+		if atomic.LoadInt32(&aborted) != 0 {
+			select {} // never released: the run is over
+		}
+		// Outside a simulated run (sequential reference calls) nobody can release a lock
+		// that this goroutine waits for: after a few real seconds this is a self-deadlock
+		// (a nested call re-acquiring an exclusive lock). Inside a bubble the clock is fake
+		// and advances a nanosecond per step, so this never fires there.
+		if time.Since(start) > 3*time.Second {
+			atomic.AddInt64(&waiting, -1)
+			panic("verifsync: lock not acquired after 3s outside a simulated run (self-deadlock of nested calls?)")
+		}
 		time.Sleep(1)
 	}
+	atomic.AddInt64(&waiting, -1)
 }
 
 // RWMutex wraps a real sync.RWMutex.
